@@ -134,6 +134,8 @@ func concretize(chars []string, a string) string {
 			sb.WriteByte('\\')
 		case "_":
 			sb.WriteByte('_')
+		case "r":
+			sb.WriteString(rootName) // the root directory's own base name
 		default:
 			sb.WriteString(a)
 		}
@@ -147,26 +149,75 @@ type keyEnv struct {
 	viol, drift   findings
 	snap          map[string]string
 	slowAliases   int
+	dirty         bool // something outside the root changed during this key: rebuild the outside layout afterwards
 }
 
 const decoy = "DECOY-OUTSIDE-THE-ROOT"
 
+// rootName is the base name of the scratch storage root. The parent directory also holds sibling directories whose
+// names merely START with it (as "data-backup" next to "data"): a containment check done on strings instead of
+// path segments lets keys into them.
+const rootName = "R"
+
+var siblingDirs = []string{rootName + "s", rootName + "-backup"} // other spellings are created by an escaping key itself and show up as new entries
+var decoyNames = []string{"s", "é", "_"}
+
 func (e *keyEnv) setup() error {
 	e.G = filepath.Join(e.base, "G")
 	e.P = filepath.Join(e.G, "P")
-	e.R = filepath.Join(e.P, "R")
-	if err := os.MkdirAll(e.R, 0o700); err != nil {
+	e.R = filepath.Join(e.P, rootName)
+	if err := e.pristine(); err != nil {
 		return err
-	}
-	for _, d := range []string{e.G, e.P} {
-		for _, n := range []string{"s", "é", "_"} {
-			if err := os.WriteFile(filepath.Join(d, n), []byte(decoy), 0o600); err != nil {
-				return err
-			}
-		}
 	}
 	time.Sleep(20 * time.Millisecond) // directory mtimes are coarse: let the clock tick past the set-up
 	e.snap = e.scan()
+	return nil
+}
+
+// pristine (re)builds everything outside the root: decoy files in the grandparent, in the parent and in the sibling
+// directories whose names start with the root's name; anything else outside the root is removed. The root is emptied.
+func (e *keyEnv) pristine() error {
+	os.RemoveAll(e.R)
+	if err := os.MkdirAll(e.R, 0o700); err != nil {
+		return err
+	}
+	keep := map[string]bool{e.G: true, e.P: true}
+	dirs := []string{e.G, e.P}
+	for _, sd := range siblingDirs {
+		dirs = append(dirs, filepath.Join(e.P, sd))
+	}
+	for _, d := range dirs {
+		keep[d] = true
+		if st, err := os.Lstat(d); err != nil || !st.IsDir() {
+			os.RemoveAll(d)
+			if err := os.MkdirAll(d, 0o700); err != nil {
+				return err
+			}
+		}
+		names := decoyNames
+		if d != e.G && d != e.P {
+			names = decoyNames[:1]
+		}
+		for _, n := range names {
+			p := filepath.Join(d, n)
+			keep[p] = true
+			if cur, err := os.ReadFile(p); err != nil || string(cur) != decoy {
+				os.RemoveAll(p)
+				if err := os.WriteFile(p, []byte(decoy), 0o600); err != nil {
+					return err
+				}
+			}
+		}
+	}
+	for _, d := range dirs {
+		ents, _ := os.ReadDir(d)
+		for _, en := range ents {
+			p := filepath.Join(d, en.Name())
+			if !keep[p] && p != e.R {
+				os.RemoveAll(p)
+			}
+		}
+	}
 	return nil
 }
 
@@ -174,27 +225,33 @@ func (e *keyEnv) setup() error {
 // decoys, and the directories' own mtimes (an entry created and removed again still moves the mtime).
 func (e *keyEnv) scan() map[string]string {
 	m := map[string]string{}
-	for _, d := range []string{e.G, e.P} {
+	var walk func(d string)
+	walk = func(d string) {
 		st, err := os.Lstat(d)
 		if err != nil {
 			m["dir:"+d] = "missing"
-			continue
+			return
 		}
 		m["mtime:"+d] = strconv.FormatInt(st.ModTime().UnixNano(), 10)
 		ents, _ := os.ReadDir(d)
 		for _, en := range ents {
 			p := filepath.Join(d, en.Name())
-			if p == e.P || p == e.R {
+			if p == e.R {
+				continue
+			}
+			if en.IsDir() {
+				m["entry:"+p] = "dir"
+				walk(p)
 				continue
 			}
 			info, err := en.Info()
 			if err != nil {
 				continue
 			}
-			v := fmt.Sprintf("mode=%v size=%d mtime=%d", info.Mode().Type(), info.Size(), info.ModTime().UnixNano())
-			m["entry:"+p] = v
+			m["entry:"+p] = fmt.Sprintf("mode=%v size=%d mtime=%d", info.Mode().Type(), info.Size(), info.ModTime().UnixNano())
 		}
 	}
+	walk(e.G)
 	return m
 }
 
@@ -281,6 +338,7 @@ func (e *keyEnv) exercise(key string, origin string, info map[string]interface{}
 		now := e.scan()
 		ents, mt := diffScan(e.snap, now)
 		if len(ents) > 0 {
+			e.dirty = true
 			// mechanism first: a root-alias key stages at "<root>.part"; everything else is named by the operation
 			sig := fmt.Sprintf("entry-outside-root:%s:%s", op, class)
 			for _, x := range ents {
@@ -342,25 +400,16 @@ func (e *keyEnv) exercise(key string, origin string, info map[string]interface{}
 	_ = b.RemoveDirectory(ctx, key)
 	check("RemoveDirectory", nil, nil)
 
-	// clean: empty the root, remove whatever escaped
-	os.RemoveAll(e.R)
-	os.MkdirAll(e.R, 0o700)
-	for k := range e.snap {
-		if strings.HasPrefix(k, "entry:") {
-			p := k[6:]
-			if n := filepath.Base(p); !(n == "s" || n == "é" || n == "_") || filepath.Dir(p) != e.G && filepath.Dir(p) != e.P {
-				os.RemoveAll(p)
-			}
+	// clean: empty the root; if anything outside it was touched, rebuild the outside layout
+	if e.dirty {
+		if err := e.pristine(); err != nil {
+			e.res.Infra = "cannot restore the scratch layout: " + err.Error()
+			return
 		}
-	}
-	for _, dd := range []string{e.G, e.P} {
-		for _, n := range []string{"s", "é", "_"} {
-			p := filepath.Join(dd, n)
-			if cur, err := os.ReadFile(p); err != nil || string(cur) != decoy {
-				os.RemoveAll(p)
-				os.WriteFile(p, []byte(decoy), 0o600)
-			}
-		}
+		e.dirty = false
+	} else {
+		os.RemoveAll(e.R)
+		os.MkdirAll(e.R, 0o700)
 	}
 	e.snap = e.scan()
 }
@@ -372,6 +421,8 @@ func exoticKeys(seed int64, n int) []string {
 		".\x00./.\x00./x", "\x00../x", ".\x00\x00.", "..\x00/x", ".\x00.", ".\x00./s", "\x00.\x00.\x00/s", "s/.\x00./.\x00./.\x00./s",
 		"...", "..../x", ". . /x", "./../x", "x/./../..", "\\..\\x", "..\\..\\x", "x\\..\\..\\y", strings.Repeat("a", 5000), strings.Repeat("a/", 300) + "x",
 		"R/../../s", "../R/x", "../R.part", "R.part", ".part", "/.part", "x/", "x//", "./", "/./", "/.", "~", "~/x", "$HOME/x", "`x`", "x\ny", "x\r\n../y",
+		".\x00./" + rootName + "-backup/evil.parquet", ".\x00./" + rootName + "s/s", ".\x00./" + rootName + ".part", ".\x00./" + rootName + "/x",
+		".\x00./" + rootName + "-backup/s", "s/.\x00./.\x00./" + rootName + "_/_", ".\x00./" + rootName + "\x00s/s", rootName + "s/s", "/" + rootName + "-backup/s",
 		"..\u2215x", "\uff0e\uff0e/x", "\xc0\xae\xc0\xae/x", "\xff\xfe/x", "x\x00.parquet", "x.parquet\x00/../../y",
 	}
 	rng := rand.New(rand.NewSource(seed))
